@@ -682,24 +682,45 @@ func checkFetcher(h []int) (string, string) {
 
 var bodyShapes = []struct {
 	name, body, want string // want = the address the body states ("" = not an address: the next provider is asked)
+	// cut > 0: on the first attempt the connection is closed after that many bytes of the body (the reader ends with
+	// io.ErrUnexpectedEOF): a transport error, the provider is asked again and then answers completely
+	cut int
 }{
-	{"ipv4", "192.0.2.44", "192.0.2.44"},
-	{"ipv4-crlf", "192.0.2.44\r\n", "192.0.2.44"},
-	{"ipv4-padded", "  192.0.2.44 \n\n", "192.0.2.44"},
-	{"ipv6-compressed", "2001:db8::7334\n", "2001:db8::7334"},
-	{"ipv6-full-notation", "2001:0db8:85a3:0000:0000:8a2e:0370:7334\n", "2001:db8:85a3::8a2e:370:7334"},
-	{"ipv6-full-notation-padded", "   2001:0db8:85a3:0000:0000:8a2e:0370:7334  \n", "2001:db8:85a3::8a2e:370:7334"},
-	{"ipv6-full-notation-then-text", "2001:0db8:85a3:0000:0000:8a2e:0370:7334 (forwarded for 10.0.0.1)", ""},
-	{"ipv4-then-text", "192.0.2.44 is your address", ""},
-	{"five-octets", "192.0.2.44.5", ""},
-	{"empty", "", ""},
-	{"html-page", "<html>" + strings.Repeat("x", 5000) + "192.0.2.44</html>", ""},
+	{"ipv4", "192.0.2.44", "192.0.2.44", 0},
+	{"ipv4-cut-to-a-shorter-address", "192.0.2.44\n", "192.0.2.44", 9},
+	{"ipv4-cut-inside-an-octet-boundary", "192.0.2.44\n", "192.0.2.44", 8},
+	{"ipv6-cut-to-a-shorter-address", "2001:db8::7334\n", "2001:db8::7334", 13},
+	{"ipv4-crlf", "192.0.2.44\r\n", "192.0.2.44", 0},
+	{"ipv4-padded", "  192.0.2.44 \n\n", "192.0.2.44", 0},
+	{"ipv6-compressed", "2001:db8::7334\n", "2001:db8::7334", 0},
+	{"ipv6-full-notation", "2001:0db8:85a3:0000:0000:8a2e:0370:7334\n", "2001:db8:85a3::8a2e:370:7334", 0},
+	{"ipv6-full-notation-padded", "   2001:0db8:85a3:0000:0000:8a2e:0370:7334  \n", "2001:db8:85a3::8a2e:370:7334", 0},
+	{"ipv6-full-notation-then-text", "2001:0db8:85a3:0000:0000:8a2e:0370:7334 (forwarded for 10.0.0.1)", "", 0},
+	{"ipv4-then-text", "192.0.2.44 is your address", "", 0},
+	{"five-octets", "192.0.2.44.5", "", 0},
+	{"empty", "", "", 0},
+	{"html-page", "<html>" + strings.Repeat("x", 5000) + "192.0.2.44</html>", "", 0},
 }
 
 type bodyRT struct {
 	order []string
 	body  string
+	cut   int
 	log   []int
+}
+
+type cutReader struct {
+	data []byte
+	off  int
+}
+
+func (c *cutReader) Read(p []byte) (int, error) {
+	if c.off >= len(c.data) {
+		return 0, io.ErrUnexpectedEOF
+	}
+	n := copy(p, c.data[c.off:])
+	c.off += n
+	return n, nil
 }
 
 func (t *bodyRT) RoundTrip(req *http.Request) (*http.Response, error) {
@@ -714,13 +735,22 @@ func (t *bodyRT) RoundTrip(req *http.Request) (*http.Response, error) {
 	body := "198.51.100.200\n" // every provider but the first gives a plain valid answer
 	if idx == 0 {
 		body = t.body
+		first := true
+		for _, k := range t.log[:len(t.log)-1] {
+			if k == 0 {
+				first = false
+			}
+		}
+		if t.cut > 0 && first {
+			return &http.Response{StatusCode: 200, Status: "200 OK", Body: io.NopCloser(&cutReader{data: []byte(body[:t.cut])}), ContentLength: int64(len(body)), Header: http.Header{}, Request: req}, nil
+		}
 	}
 	return &http.Response{StatusCode: 200, Status: "200 OK", Body: io.NopCloser(strings.NewReader(body)), Header: http.Header{}, Request: req}, nil
 }
 
 func checkBody(i int) (string, string) {
 	sh := bodyShapes[i]
-	t := &bodyRT{order: publicip.VerifCheckers(), body: sh.body}
+	t := &bodyRT{order: publicip.VerifCheckers(), body: sh.body, cut: sh.cut}
 	var ip net.IP
 	var err error
 	vrand.Src = jit{0.5}
